@@ -80,13 +80,15 @@ def runOpZero (α : Type) [LT α] [LE α] [DecidableLT α] [DecidableLE α] [BEq
     let shifts ← P.many k (do let o ← P.time (α := α); let n ← P.time (α := α); pure (o, n))
     let name ← P.str; let label ← P.str
     let a ← P.time (α := α); let b ← P.opt (P.time (α := α)); let d ← P.time (α := α)
+    let same ← P.bool; let a0 ← P.time (α := α); let b0 ← P.opt (P.time (α := α))
     let au ← P.opt (do
       let wv ← wav; let seg ← bytes; let qa ← qtime; let qb ← P.opt qtime
       pure (spliceWav wv seg qa qb))
-    let aus := match au with
-      | none => "N"
-      | some w => outBytes w.frames
-    match spliceTg g shifts name label a b d with
-    | .ok g' => pure s!"ok {Out.tg g'} {aus}"
+    match audioSpliceTg g same a0 b0 shifts name label a b d with
     | .error e => pure s!"err {e.name}"
+    | .ok g' =>
+      match au with
+      | none => pure s!"ok {Out.tg g'} N"
+      | some (.ok w) => pure s!"ok {Out.tg g'} {outBytes w.frames}"
+      | some (.error e) => pure s!"err {e.name}"
   | _ => none
